@@ -109,3 +109,32 @@ package vm
 //@   ensures old(evm.depth) > int(params.CallCreateDepth) && !(old(evm.vmConfig.NoRecursion) && old(evm.depth) > 0) ==> err == ErrDepth && leftOverGas == gas
 //@   assert @call run#0: evm.depth <= int(params.CallCreateDepth)
 //@   ensures err != nil && err != ErrDepth && err != ErrContractCodeLoadFail ==> gh("lastRevert", evm.am) == snapshot
+
+// ---------------------------------------------------------------------------------------------------------------------
+// C16, "never uses more gas than supplied", the pairing between the gas table and the call instructions.  The interpreter charges
+// the dynamic gas computed by gasCall* (UseGas) before it executes opCall*, which hands evm.callGasTemp -- plus the CallStipend
+// when a value is sent -- to the callee and credits back what the callee returns.  So the charge must cover everything handed
+// over: result >= callGasTemp (+ stipend if the value operand is non-zero).  The instructions' side (gas handed ==
+// callGasTemp + stipend-if-value) and the interpreter loop that connects the two are not under contract.
+//@ pred stackOK(s *Stack, n int) = s != nil && len(s.data) >= n && forall(i, 0, len(s.data), s.data[i] != nil)
+//@ spec func operand(s *Stack, n int) mathint = val(s.data[len(s.data)-n-1])
+
+//@ func memoryGasCost   trusted
+//@   modifies mem.lastGasCost
+
+//@ func gasCall
+//@   props C16
+//@   requires evm != nil && contract != nil && mem != nil && stackOK(stack, 7) && operand(stack, 0) >= 0 && gt.Calls <= 1<<32
+//@   ensures result1 == nil ==> int(result0) >= int(evm.callGasTemp) + ite(operand(stack, 2) != 0, int(params.CallStipend), 0)
+//@ func gasCallCode
+//@   props C16
+//@   requires evm != nil && contract != nil && mem != nil && stackOK(stack, 7) && operand(stack, 0) >= 0 && gt.Calls <= 1<<32
+//@   ensures result1 == nil ==> int(result0) >= int(evm.callGasTemp) + ite(operand(stack, 2) != 0, int(params.CallStipend), 0)
+//@ func gasDelegateCall
+//@   props C16
+//@   requires evm != nil && contract != nil && mem != nil && stackOK(stack, 6) && operand(stack, 0) >= 0 && gt.Calls <= 1<<32
+//@   ensures result1 == nil ==> int(result0) >= int(evm.callGasTemp)
+//@ func gasStaticCall
+//@   props C16
+//@   requires evm != nil && contract != nil && mem != nil && stackOK(stack, 6) && operand(stack, 0) >= 0 && gt.Calls <= 1<<32
+//@   ensures result1 == nil ==> int(result0) >= int(evm.callGasTemp)
